@@ -846,6 +846,8 @@ Section Erase.
         rewrite <- map_app, IH, rmap_rmap. destruct (uniq_prop k l m (keys ++ [item])); reflexivity.
     - destruct m; [apply IH|].
       rewrite IH, rmap_rmap. destruct (uniq_prop k l true keys); reflexivity.
+    - destruct m; [apply IH|].
+      rewrite IH, rmap_rmap. destruct (uniq_prop k l true keys); reflexivity.
   Qed.
 
   Lemma E_uniq_plain l : uniq_plain (List.map E l) = rmap (List.map E) (uniq_plain l).
